@@ -58,6 +58,12 @@ func (vertex *Vertex) Validate() error {
 	if vertex.Label == "" {
 		return errors.New("'label' cannot be blank")
 	}
+	if strings.ContainsRune(vertex.Gid, 0) {
+		return errors.New("'gid' cannot contain a NUL byte")
+	}
+	if strings.ContainsRune(vertex.Label, 0) {
+		return errors.New("'label' cannot contain a NUL byte")
+	}
 	for k := range vertex.GetDataMap() {
 		err := ValidateFieldName(k)
 		if err != nil {
@@ -121,6 +127,18 @@ func (edge *Edge) Validate() error {
 	if edge.To == "" {
 		return errors.New("'to' cannot be blank")
 	}
+	if strings.ContainsRune(edge.Gid, 0) {
+		return errors.New("'gid' cannot contain a NUL byte")
+	}
+	if strings.ContainsRune(edge.Label, 0) {
+		return errors.New("'label' cannot contain a NUL byte")
+	}
+	if strings.ContainsRune(edge.From, 0) {
+		return errors.New("'from' cannot contain a NUL byte")
+	}
+	if strings.ContainsRune(edge.To, 0) {
+		return errors.New("'to' cannot contain a NUL byte")
+	}
 	for k := range edge.GetDataMap() {
 		err := ValidateFieldName(k)
 		if err != nil {
@@ -159,6 +177,9 @@ func ValidateFieldName(k string) error {
 func validate(k string) error {
 	if strings.ContainsAny(k, `!@#$%^&*()+={}[] :;"',.<>?/\|~`) {
 		return errors.New(`cannot contain: !@#$%^&*()+={}[] :;"',.<>?/\|~`)
+	}
+	if strings.ContainsRune(k, 0) {
+		return errors.New(`cannot contain a NUL byte`)
 	}
 	if strings.HasPrefix(k, "_") || strings.HasPrefix(k, "-") {
 		return errors.New(`cannot start with _-`)
